@@ -494,6 +494,9 @@ def main(run):
     # the summary table of dassh.out through which a user reads this property (vf/props/reports.py)
     from . import reports
     run.explore('report-ebal', reports.cases_ebal(run.tier), reports.run_ebal, budget_s=300)
+    # the csv dump of this property's field: every row is the recorded field of that assembly at that plane
+    from . import reports as _rep
+    run.explore('report-dumps', _rep.cases_dumps(run.tier), _rep.run_dumps_C01, budget_s=300)
     lim = run.extra.get('limiter', {})
     run.notes['worst_rel_residual'] = max([x['info']['worst_rel_residual'] for x in res
                                            if x.get('info')] or [0.0])
